@@ -286,6 +286,23 @@ def fam_history_abort(nmax: int = 2, *, batch: int = 2) -> Iterator[Config]:
         yield Config(spec=mk_spec(((), (), ()), types=types), requested=tuple((i, False) for i in range(3)), batch=batch, cof=False, history='aborted-run_tasks')
 
 
+def fam_none(nmax: int = 3, *, batch: int = 2) -> Iterator[Config]:
+    """Tasks whose result is None (TZ) or an exception object that is returned, not raised (TE), requested
+    and as dependencies, cold and pre-cached."""
+    for n in range(1, nmax + 1):
+        for shape in all_shapes(n):
+            for types in itertools.product(('TZ', 'TA', 'TE') if n < 3 else ('TZ', 'TE'), repeat=n):
+                if 'TZ' not in types and 'TE' not in types:
+                    continue
+                spec = mk_spec(shape, types=types)
+                req = tuple((i, False) for i in range(n))
+                yield Config(spec=spec, requested=req, batch=batch)
+                if n > 1:
+                    yield Config(spec=spec, requested=((n - 1, False),), batch=batch)
+                    yield Config(spec=spec, requested=req, precached=(0,), batch=batch)
+                    yield Config(spec=spec, requested=req, precached=tuple(range(n)), batch=batch)
+
+
 def fam_corrupt(nmin: int = 2, nmax: int = 3, *, batch: int = 2) -> Iterator[Config]:
     """Warm caches in which the stored result of one entry is damaged (metadata intact): the entry looks
     cached, cannot be loaded - the task fails; it is not re-run behind the caller's back."""
